@@ -47,7 +47,7 @@ class C20(Prop):
     floors = {'quick': (200, 40), 'thorough': (4000, 800)}
     must_reach = ['discrete_time/explainer:LTLExplainer.visitPredicate']
     quick_cases = 2000
-    thorough_cases = 100000
+    thorough_cases = 600000
 
     def gen_multi_occurrence(self, rng):
         """One variable under several temporal windows (nested / overlapping / disjoint), combined by Boolean
